@@ -171,8 +171,10 @@ CLAIMS = {
              "counts of the bank files add up; `live_typed_table_is_effective_document`: the typed country table on "
              "which the obligations of all other properties are checked is, key by key as the code reads it "
              "(`typed_entry_reads_document`, `typed_lookup_reads_document`), that effective document - so validation "
-             "and generation theorems are about the composition of the files on disk. The live package's lookups "
-             "are compared with the bank files read independently. Tied to the code by correspondence of merge_dicts, parse_v2 and "
+             "and generation theorems are about the composition of the files on disk. For bank files: `byBankCode_append`, "
+             "`byBankCode_append_unlisted`, `first_entry_from_earlier_file` (an additional file's entries come after "
+             "the earlier files' entries of the same pair; pairs it does not list are looked up as before). The live "
+             "package's lookups are compared with the bank files read independently. Tied to the code by correspondence of merge_dicts, parse_v2 and "
              "registry.get (temporary directories, adversarial file names).",
         design="7 (C18)",
         technique="Lean 4 proof (mutual structural recursion/induction over JSON trees) + decide +kernel on the "
